@@ -177,6 +177,9 @@ def strategy(tier):
 def enumerate_cases(tier, seed):
     for k in (50, 500) + ((5000,) if tier == "thorough" else ()):
         yield {"kind": "depth", "k": k, "ops": []}
+    # the limit survives the facilities that swap the call stack (stack tracing, action generation)
+    for via in ("stacktrace", "trace_stack", "actions"):
+        yield {"kind": "depth", "k": 50, "via": via, "ops": []}
     yield {"kind": "survival", "n": 20000 if tier == "quick" else 95000, "ops": []}
     # chains far below the configured limit through every way a formula can reach the next cells
     for path in ("name", "ref", "space_attr", "model_attr"):
@@ -213,6 +216,19 @@ def run_depth(case, out):
     s.new_cells("c", "lambda x: c(x - 1) + 1 if x > 0 else 0")
     mx.set_recursion(k)
     try:
+        via = case.get("via")
+        if via == "stacktrace":
+            mx.start_stacktrace()
+            s.c(2)
+            mx.stop_stacktrace()
+        elif via == "trace_stack":
+            with mx.trace_stack():
+                s.c(2)
+        elif via == "actions":
+            m.generate_actions([s.c.node(2)])
+        if via:
+            s.c.clear()
+            out.label("depth_after_" + via)
         for n in (1, k // 2, k - 1):
             try:
                 v = s.c(n)
